@@ -59,6 +59,9 @@ def run_spec(spec, repo_root=None, timeout=1500):
             shutil.rmtree(sc)
         os.makedirs(sc)
         subprocess.run(["rsync", "-a", "--exclude", "target", "--exclude", ".git", repo_root + "/", sc + "/repo/"], check=True)
+        # cargo's freshness check is mtime based and the target dir is shared between runs on different trees: give every source
+        # file of the scratch copy a fresh mtime so that no artifact built from another tree is reused
+        subprocess.run("find . -name '*.rs' -o -name '*.toml' -o -name '*.c' -o -name '*.h' | xargs touch", shell=True, cwd=os.path.join(sc, "repo"))
         tgt = os.path.join(sc, "repo", spec["crate_dir"], spec["inject_into"])
         if not os.path.exists(tgt):
             out["error"] = "file to inject into is missing: %s" % spec["inject_into"]
@@ -141,6 +144,7 @@ if __name__ == "__main__":
     import sys
     bad = 0
     for r in run_property(sys.argv[1], sys.argv[2] if len(sys.argv) > 2 else None):
-        print(json.dumps(r, indent=1)[:3000])
+        r2 = dict(r, fails=r["fails"][:5], n_fails=len(r["fails"]))
+        print(json.dumps(r2, indent=1)[:6000])
         bad += len(r["fails"])
     sys.exit(1 if bad else 0)
